@@ -176,6 +176,9 @@ func (th *Thread) fmtValue(fr *frame, a Iface, verb byte, flags string) Str {
 			}
 		}
 	}
+	if _, ok := a.V.(UStr); ok {
+		a = th.force(a).(Iface)
+	}
 	switch v := a.V.(type) {
 	case Str:
 		switch verb {
